@@ -424,7 +424,7 @@ pub fn run(ctx: &Ctx) -> usize {
 	} else {
 		ctx.put("end_blocks_enumerated", json!(END_CASES));
 	}
-	if run_dna(ctx, "dna", ctx.n(12_000, 600_000), 2048, |dna, counting| check(ctx, &gen_case(dna), counting)).is_some() {
+	if run_dna(ctx, "dna", ctx.n(100_000, 5_000_000), 2048, |dna, counting| check(ctx, &gen_case(dna), counting)).is_some() {
 		violations += 1;
 	}
 	violations
